@@ -258,6 +258,12 @@ def run_shard(shard, rec):
         for v in [2 ** 63, -2 ** 63 - 1, 2 ** 64, -2 ** 64, 2 ** 2047, -(2 ** 2047), [2 ** 70], {"k": -2 ** 99}, float("nan"), [float("nan")], (float("nan"),),
                   {"a": (float("nan"), 1)}, [(float("inf"), [float("-inf")])], -0.0, [-0.0], "\x00", "a\x00b", "퟿", "", "", [[]], [{}], {"": ""}]:
             (core_case if not has_tuple(v) else ext_case)(v)
+        # Pyro's own value type (every serializer carries it as a class dict): same mapping on every path, at every nesting position
+        U = P.core.URI
+        for text in ("PYRO:obj@host:1", "PYRO:o.b-j@[::1]:65535", "PYRONAME:some.name", "PYRONAME:n@ns:9090", "PYRO:x@./u:/tmp/sock", "PYROMETA:a,b"):
+            for wrap in (lambda u: u, lambda u: [u], lambda u: {"k": u}, lambda u: [1, {"a": [u, None]}], lambda u: (u, "t"), lambda u: {"u": {"v": u}, "w": [u]}):
+                ext_case(wrap(U(text)))
+                rec.count("codec_uri_values")
         return
     # wire level
     fx = fixture.Fixture(servertype=shard["servertype"], COMPRESSION=shard["compression"], COMMTIMEOUT=0.0, ITER_STREAMING=True)
@@ -295,9 +301,6 @@ def run_shard(shard, rec):
                 core_case(v)
         gen.draw_many(gen.core_values(12), shard["n"], seed + 5, core_case)
         gen.draw_many(gen.ext_values(8), shard["n"] // 2, seed + 6, ext_case)
-        if shard["compression"] is False:
-            rec.count("wire_compressed_request")     # not applicable in this configuration: keep the reach gate about the compressed shards only
-            rec.count("wire_compressed_reply")
         for kind, text in fixture.take_faults():
             rec.violation("server-thread-fault", "%s: %s" % (kind, text), None)
     finally:
